@@ -1991,17 +1991,12 @@ class ForallFormula(QuantifiedFormula):
 
         new_inner_formula = self.inner_formula.substitute_expressions(subst_map)
 
-        if (
-            self.bound_variable not in new_inner_formula.free_variables()
-            and self.bind_expression is None
-        ):
-            # NOTE: We cannot remove the quantifier if there is a bind expression, not
-            #       even if the variables in the bind expression do not occur in the
-            #       inner formula, since there might be multiple expansion alternatives
-            #       of the bound variable nonterminal and it makes a difference whether
-            #       a particular expansion has been chosen. Consider, e.g., an inner
-            #       formula "false". Then, this formula evaluates to false IF, AND ONLY
-            #       IF, the defined expansion alternative is chosen, and NOT always.
+        if new_inner_formula == true():
+            # NOTE: A universal formula whose inner formula does not mention the bound
+            #       variable is *not* equivalent to that inner formula: it holds
+            #       vacuously if there is no element to quantify over (and, with a bind
+            #       expression, if no element has the defined expansion). The quantifier
+            #       can only be removed if the inner formula holds anyway.
             return new_inner_formula
 
         return ForallFormula(
